@@ -35,7 +35,7 @@ for d in sorted(glob.glob('seeded/*')):
 # behaviour-preserving refactor rounds: patches that raised an alarm when first evaluated
 pt = '| patch | refactoring | rules that alarmed when first evaluated |\n|---|---|---|\n'
 npres = 0
-for rnd, dirn, alarms in (('1', 'tools/preserving', 'tools/preserving/round1_alarms.json'), ('2', 'tools/preserving2', 'tools/preserving2/round2_alarms.json')):
+for rnd, dirn, alarms in (('1', 'tools/preserving', 'tools/preserving/round1_alarms.json'), ('2', 'tools/preserving2', 'tools/preserving2/round2_alarms.json'), ('3', 'tools/preserving3', 'tools/preserving3/round3_alarms.json')):
     if not os.path.exists(alarms):
         continue
     al = json.load(open(alarms))
